@@ -166,6 +166,24 @@ fn heads(tier: Tier) -> Vec<(Vec<u8>, bool)> {
             }
         }
     }
+    // request targets in every form crossed with Host headers that agree, disagree, differ in
+    // case or port, are absent or repeated: the head is reported as sent, nothing is
+    // reconciled between the target and Host
+    for t in [
+        "http://www.example.org:8080/p?q=1", "HTTP://WWW.Example.ORG/", "https://user@example.org/x", "http://h", "http://[::1]:80/",
+        "*", "example.org:443", "/p", "//example.org/p", "/http://example.org/",
+    ] {
+        for hosts in [
+            vec![], vec!["backend.internal"], vec!["www.example.org:8080"], vec!["WWW.EXAMPLE.ORG:8080"], vec!["example.org:80"], vec!["h"],
+            vec!["a.example", "b.example"], vec![""],
+        ] {
+            for m in ["GET", "OPTIONS", "CONNECT"] {
+                let mut lines: Vec<String> = hosts.iter().map(|h| format!("Host: {}", h)).collect();
+                lines.push("X-After: 1".to_string());
+                out.push((head(m, t, "1.1", &lines), false));
+            }
+        }
+    }
     // long lists by cycling atoms
     for n in [3usize, 8, 63, 64] {
         for off in 0..(if !full(tier) { 1 } else { 4 }) {
@@ -266,7 +284,7 @@ impl Check for C02 {
     }
     fn rule(&self, tier: Tier) -> String {
         format!(
-            "request heads from the RFC 7230 grammar: every request line (14 methods incl. case variants and an all-tchar token x 7 targets incl. asterisk, absolute-form, all visible ASCII, 1100 bytes x versions 1.0/1.1) with 2-3 header lists; every header list of length 1 and 2 over {} atoms (names {:?}... x values x surrounding OWS) with request lines round-robin; lists of 3/8/63/64 fields; heads of exactly 1023..2049 bytes; {} heads in {} keep-alive connections of up to 8 requests, and again on connections of 1100 requests (quick: one, thorough: all), x peer kinds TCP-like/UNIX-like; each delivered head compared field by field with the generator's abstract request (method, target, version, header order/multiplicity/values after OWS removal, peer address); every case is distinct and non-trivial",
+            "request heads from the RFC 7230 grammar: every request line (14 methods incl. case variants and an all-tchar token x 7 targets incl. asterisk, absolute-form, all visible ASCII, 1100 bytes x versions 1.0/1.1) with 2-3 header lists; every header list of length 1 and 2 over {} atoms (names {:?}... x values x surrounding OWS) with request lines round-robin; lists of 3/8/63/64 fields; 10 targets in every form (absolute, authority, asterisk, origin, look-alikes) x 8 Host header sets (absent, other host, same, other case, other port, repeated, empty) x GET/OPTIONS/CONNECT; heads of exactly 1023..2049 bytes; {} heads in {} keep-alive connections of up to 8 requests, and again on connections of 1100 requests (quick: one, thorough: all), x peer kinds TCP-like/UNIX-like; each delivered head compared field by field with the generator's abstract request (method, target, version, header order/multiplicity/values after OWS removal, peer address); every case is distinct and non-trivial",
             atoms(tier).len(), names(tier).iter().map(|n| if n.len() > 20 { "<1100-byte name>".to_string() } else { n.clone() }).collect::<Vec<_>>(),
             heads(tier).len(), packs(tier).len()
         )
